@@ -44,7 +44,7 @@ func (c *Component) forwardPendingDHCPv4(sessID string, mac net.HardwareAddr, sv
 			Profile:   v4Profile,
 			LocalMAC:  localMAC,
 		}
-		response, err := provider.HandlePacket(c.Ctx, pkt)
+		response, err := c.handleResolvedV4(provider, pkt)
 		if err != nil {
 			c.logger.Error("DHCP provider failed for DISCOVER", "session_id", sessID, "error", err)
 			return
@@ -75,7 +75,7 @@ func (c *Component) forwardPendingDHCPv4(sessID string, mac net.HardwareAddr, sv
 			Profile:   v4Profile,
 			LocalMAC:  localMAC,
 		}
-		response, err := provider.HandlePacket(c.Ctx, pkt)
+		response, err := c.handleResolvedV4(provider, pkt)
 		if err != nil {
 			c.logger.Error("DHCP provider failed for REQUEST", "session_id", sessID, "error", err)
 			return
@@ -142,7 +142,7 @@ func (c *Component) forwardPendingDHCPv6(sess *SessionState, sessID string, mac 
 			LocalMAC:  localMAC,
 			RelayInfo: relayInfo,
 		}
-		response, err := v6Provider.HandlePacket(c.Ctx, pkt)
+		response, err := c.handleResolvedV6(v6Provider, pkt)
 		if err != nil {
 			c.logger.Error("DHCPv6 provider failed for SOLICIT", "session_id", sessID, "error", err)
 		} else if response != nil && len(response.Raw) > 0 {
@@ -174,7 +174,7 @@ func (c *Component) forwardPendingDHCPv6(sess *SessionState, sessID string, mac 
 			LocalMAC:  localMAC,
 			RelayInfo: relayInfo,
 		}
-		response, err := v6Provider.HandlePacket(c.Ctx, pkt)
+		response, err := c.handleResolvedV6(v6Provider, pkt)
 		if err != nil {
 			c.logger.Error("DHCPv6 provider failed for REQUEST", "session_id", sessID, "error", err)
 		} else if response != nil && len(response.Raw) > 0 {
@@ -219,7 +219,7 @@ func (c *Component) forwardLatePendingPackets(sess *SessionState, sessID string,
 		}
 		provider := c.getDHCP4Provider(v4Profile)
 		if provider != nil {
-			response, err := provider.HandlePacket(c.Ctx, pkt)
+			response, err := c.handleResolvedV4(provider, pkt)
 			if err != nil {
 				c.logger.Error("DHCP provider failed for late-pending DISCOVER", "session_id", sessID, "error", err)
 			} else if response != nil && len(response.Raw) > 0 {
@@ -250,7 +250,7 @@ func (c *Component) forwardLatePendingPackets(sess *SessionState, sessID string,
 		}
 		provider := c.getDHCP4Provider(v4Profile)
 		if provider != nil {
-			response, err := provider.HandlePacket(c.Ctx, pkt)
+			response, err := c.handleResolvedV4(provider, pkt)
 			if err != nil {
 				c.logger.Error("DHCP provider failed for late-pending REQUEST", "session_id", sessID, "error", err)
 			} else if response != nil && len(response.Raw) > 0 {
@@ -287,7 +287,7 @@ func (c *Component) forwardLatePendingPackets(sess *SessionState, sessID string,
 			LocalMAC:  localMAC,
 			RelayInfo: relayInfo,
 		}
-		response, err := v6Provider.HandlePacket(c.Ctx, pkt)
+		response, err := c.handleResolvedV6(v6Provider, pkt)
 		if err != nil {
 			c.logger.Error("DHCPv6 provider failed for late-pending SOLICIT", "session_id", sessID, "error", err)
 		} else if response != nil && len(response.Raw) > 0 {
@@ -319,7 +319,7 @@ func (c *Component) forwardLatePendingPackets(sess *SessionState, sessID string,
 			LocalMAC:  localMAC,
 			RelayInfo: relayInfo,
 		}
-		response, err := v6Provider.HandlePacket(c.Ctx, pkt)
+		response, err := c.handleResolvedV6(v6Provider, pkt)
 		if err != nil {
 			c.logger.Error("DHCPv6 provider failed for late-pending REQUEST", "session_id", sessID, "error", err)
 		} else if response != nil && len(response.Raw) > 0 {
